@@ -655,8 +655,8 @@ class LogSumPenalty(BasePenalty):
         return self.alpha * np.sum(np.log(1 + np.abs(w) / self.eps))
 
     def derivative(self, w):
-        """Compute the element-wise derivative."""
-        return np.sign(w) / (np.abs(w) + self.eps)
+        """Compute the element-wise derivative (w.r.t. ``|w|``, as L0_5 and L2_3)."""
+        return 1. / (np.abs(w) + self.eps)
 
     def prox_1d(self, value, stepsize, j):
         """Compute the proximal operator of the log-sum penalty."""
